@@ -1,10 +1,10 @@
 package main
 
 import (
-	"os"
 	"fmt"
 	"go/token"
 	"go/types"
+	"os"
 	"sort"
 	"strings"
 
@@ -188,7 +188,7 @@ func runC08(p *Program, r *Report) {
 	for _, m := range []struct {
 		r string
 		n int
-	}{{"C08.R1", 9}, {"C08.R2", 5}, {"C08.R3", 5}, {"C08.R6", 4}, {"C08.R8", 8}} {
+	}{{"C08.R1", 9}, {"C08.R2", 5}, {"C08.R3", 5}, {"C08.R6", 4}, {"C08.R8", 8}, {"C08.R10", 1}} {
 		r.Min(m.r, m.n)
 	}
 	pv := NewProv(p)
@@ -354,6 +354,7 @@ func runC08(p *Program, r *Report) {
 	}
 	// ---- R5 no self-deadlock (a hang is not a reported problem) ------------------------------------------
 	checkNoReentrantLock(p, r, "C08.R5")
+	checkParsedTextGoesToRegisteredMember(p, r, "C08.R10")
 	checkTreeEmptiedOnlyOnBodyFailure(p, r, "C08.R6")
 	// ---- R4 unchecked type assertions ----------------------------------------------------
 	n := 0
@@ -600,6 +601,12 @@ func sameIntExpr(a, b ssa.Value, depth int) bool {
 	y, ok2 := b.(*ssa.BinOp)
 	if ok1 && ok2 && x.Op == y.Op {
 		return sameIntExpr(x.X, y.X, depth+1) && sameIntExpr(x.Y, y.Y, depth+1)
+	}
+	// len(v) of one and the same value
+	if la, ok := isLenOf(a); ok {
+		if lb, ok := isLenOf(b); ok {
+			return la == lb
+		}
 	}
 	return false
 }
